@@ -481,6 +481,12 @@ func (am *AppMapper) MapType(t *sysl.Type) *Type {
 		for k, v := range t.GetRelation().AttrDefs {
 			switch v.Type.(type) {
 			case *sysl.Type_TypeRef:
+				if len(v.GetTypeRef().GetContext().GetAppname().GetPart()) == 0 || len(v.GetTypeRef().GetRef().GetPath()) == 0 {
+					// not a Table.field reference with its declaring application (e.g. the generated
+					// type of an inplace tuple): map it like any other reference
+					properties[k] = am.MapType(v)
+					break
+				}
 				appName, typeName := convertTableRef(v)
 				properties[k] = &Type{
 					Type:      "ref",
